@@ -114,7 +114,7 @@ func cmdGC(args []string) {
 					check("ops")
 				}
 			}
-			for m.Len() > 0 { // drain completely
+			for tries := 0; m.Len() > 0 && tries < 100000; tries++ { // drain completely
 				k, _ := m.First()
 				if treeDel(m, k) {
 					released++
@@ -146,7 +146,7 @@ func cmdGC(args []string) {
 					check("ops")
 				}
 			}
-			for d.Len() > 0 {
+			for tries := 0; d.Len() > 0 && tries < 100000; tries++ {
 				dqPop(&d, true)
 				released++
 			}
